@@ -34,14 +34,21 @@ Section P.
     Good O M w ->
     let w' := update_kinematics O M w q qd qdd in
     forall i, 0 < i < nbodies M ->
-      gv O w' i = vF O M q qd i /\ gc O w' i = cU O M q qd i /\ ga O w' i = aU O M q qd qdd i.
+      gv O w' i = vF O M q qd i /\ gc O w' i = cU O M q qd i /\ ga O w' i = aU O M q qd qdd i /\ gXb O w' i = XbF O M q i.
   Proof. intros W C. exact (uk_a_spec O M q qd qdd W C w). Qed.
   Theorem C06_acceleration_recursion_unfolded (M : @Model T) q qd qdd i : WF M -> 0 < i < nbodies M ->
     aU O M q qd qdd i = svadd O (svadd O (st_apply O (XlF O M q i) (aU O M q qd qdd (getlam M i))) (cU O M q qd i))
                                 (cols_mulv O (SF O M q i) (qdd_seg O M i qdd)).
   Proof. intros W. exact (aU_unfold O M q qd qdd W i). Qed.
+  Theorem C06_point_acceleration_function_of_state (M : @Model T) (w1 w2 : @WS T) q qd qdd (id : N) pt : WF M ->
+    (forall i j, 0 < i < nbodies M -> 0 < j < nbodies M -> i <> j ->
+       is_custom (jkind (getJ M i)) = true -> is_custom (jkind (getJ M j)) = true -> jcust (getJ M i) <> jcust (getJ M j)) ->
+    Good O M w1 -> Good O M w2 -> (id < fixed_disc)%N -> 0 < N.to_nat id < nbodies M ->
+    snd (calc_point_acceleration6 O M w1 q qd qdd id pt true) = snd (calc_point_acceleration6 O M w2 q qd qdd id pt true).
+  Proof. intros W C. exact (point_acceleration_ws_independent O M q qd qdd W C w1 w2 id pt). Qed.
 End P.
 Print Assumptions C06_velocity_pass_recursion. Print Assumptions C06_velocity_recursion_unfolded.
 Print Assumptions C06_full_update_velocities. Print Assumptions C06_full_and_selective_update_agree.
 Print Assumptions C06_point_velocity_function_of_state.
 Print Assumptions C06_full_update_accelerations. Print Assumptions C06_acceleration_recursion_unfolded.
+Print Assumptions C06_point_acceleration_function_of_state.
